@@ -90,41 +90,25 @@ def check_property(pid, tier, seed):
     from concurrent.futures import ThreadPoolExecutor
     pool = ThreadPoolExecutor(max_workers=1)
     harness_future = pool.submit(run_harness, pid, tier, seed)
-    results = []
-    for t in tasks:
-        try:
-            results.append(verify.run_task(t))
-        except Exception:
-            r = verify.TaskResult(getattr(t, "label", getattr(t, "name", "?")))
-            r.undecided = "engine error: " + traceback.format_exc()[-600:]
-            results.append(r)
-    all_obls, all_covers, owner = [], [], []
-    for r in results:
-        for o in r.obls:
-            all_obls.append(o)
-            owner.append(r.label)
-        all_covers += r.covers
+    ts = time.time()
+    harness_file = os.path.join(HERE, "evidence", f".{pid}.harness.json")
+    iso = verify.run_isolated(tasks, timeout_s=timeout, all_backends=(tier == "thorough"), harness_file=harness_file)
+    results, all_obls, verdicts, cover_v = [], [], [], []
+    for d in iso:
+        r = verify.TaskResult(d["label"])
+        r.undecided, r.info = d["undecided"], d["info"]
+        results.append(r)
+        all_obls += d["obls"]
+        verdicts += d["verdicts"]
+        cover_v += d["covers"]
     # obligation names unique
     seen = {}
-    for o in all_obls:
+    for o, v in zip(all_obls, verdicts):
         if o.name in seen:
             seen[o.name] += 1
-            o.name = f"{o.name}~{seen[o.name]}"
+            o.name = v.name = f"{o.name}~{seen[o.name]}"
         else:
             seen[o.name] = 0
-    ts = time.time()
-    def give_up(fn_label):
-        if not harness_future.done():
-            return False
-        try:
-            h = harness_future.result()
-        except Exception:
-            return False
-        short = fn_label.split(".")[-1].split("[")[0]
-        return any(short and short in (f.get("function", "") + " " + c.get("name", "")) for c in (h or {}).get("clauses", []) for f in c.get("failures", [])
-                   if not str(f.get("signature", "")).startswith("F-"))
-    verdicts = solve.discharge(all_obls, timeout_s=timeout, all_backends=(tier == "thorough"), give_up=give_up) if all_obls else []
-    cover_v = solve.discharge(all_covers, timeout_s=3) if all_covers else []
     solver_time = time.time() - ts
     undecided_fns = [(r.label, r.undecided) for r in results if r.undecided]
     refuted = [v for v in verdicts if v.status == "refuted"]
@@ -243,7 +227,7 @@ def check_property(pid, tier, seed):
     level = meta.get("level", "proof") if fully_proved else "other"
     samples = []
     for o, v in list(zip(all_obls, verdicts))[:: max(1, len(all_obls) // 6 or 1)][:8]:
-        samples.append(dict(obligation=o.name, kind=o.kind, clause=o.note, goal=str(o.goal)[:400], n_hyps=len(o.hyps), verdict=v.status,
+        samples.append(dict(obligation=o.name, kind=o.kind, clause=o.note, goal=o.goal, n_hyps=o.n_hyps, verdict=v.status,
                             backend=v.backend, time_s=round(v.time_s, 3)))
     coverage = dict(
         obligations=n_obl, discharged=n_dis,
